@@ -29,7 +29,10 @@
   `toMs_output_tame`, `ms_roundtrip_sem_tame`, with the witnesses for the hypotheses that are forced; §6 —
   acceptance: `from_ms` accepts the command `to_ms` prints (`ms_roundtrip_accepts`, with the stage theorems
   `toMs_output_parses`, `buildState_never_raises`, `toMs_output_buildState_ok`, `toMs_output_finishDoc_ok`), hence
-  the round trip without the acceptance hypothesis (`ms_roundtrip_sem`).
+  the round trip without the acceptance hypothesis (`ms_roundtrip_sem`); §7 — "with the same N0 and the same
+  deme names": `ms_roundtrip_names_accepts`, `ms_roundtrip_names` (by name; the ORDER of the demes is that of the
+  graph only when it lists its demes by start time: `ms_roundtrip_names_order_counterexample` / `_partial`), on
+  top of the invariance of the observable under renaming (`graphSem_rename_invariant`).
 
   Chain printer ↔ parser ↔ source: `parser_arity_matches_printer` (the printer emits as many
   tokens as `Ms.arity` demands), `dest_matches_table`, and `Tables.tables_ms_model_arity` /
@@ -43,6 +46,7 @@ import DemesVerif.Proofs.MsRTTameExamples
 import DemesVerif.Proofs.MsRTNormExamples
 import DemesVerif.Proofs.MsAccExamples
 import DemesVerif.Proofs.MsAccValidators
+import DemesVerif.Proofs.MsNamesExamples
 import DemesVerif.Theorems.TablesMsModel
 namespace Demes.Theorems
 open Demes Demes.Ms Demes.Spec.C09
@@ -746,5 +750,197 @@ example : roundTripAgainst twoEpochs twoEpochs 1 [0, 1, 2, 3, 4, 5] = some true 
 example : [branchMigSize, branchMigRate, branchMigTime].all Spec.validGraph = true
     ∧ [branchMigSize, branchMigRate, branchMigTime].map (fun g' => roundTripAgainst branchMig g' 1 [0])
         = [some false, some false, some false] := by decide +kernel
+
+/-! ## 7. Graph → ms → graph with the same deme names (first sentence: "… with the same N0 and the same deme names")
+
+§§5–6 call `from_ms` without `deme_names`: population `k` comes back as the deme `deme{k}`.  Here `from_ms` is
+called with `deme_names` = the names of the demes of `g`, in `g`'s order — which is `to_ms`'s population order
+(C07 `toMs_numbering`).  In the Model (`Ms.fromMs`), as in the source, this is the call without names followed by
+the two checks of `from_ms` (`len(set(deme_names)) == len(graph.demes)`; `remap_deme_names`: the keys
+`deme1 … deme{len(deme_names)}` are exactly the graph's deme names) and `Graph.rename_demes` with the map
+`deme{k} ↦ deme_names[k-1]` and its validation.  The populations `to_ms` creates with `-es` (admixtures, pulses)
+are joined at the time they are created, `from_ms` drops them as transient demes BEFORE the renaming, so the
+number of names wanted is the number of demes of `g`.
+
+Three things are proved:
+
+1. the observable of a graph does not depend on what the demes are called (`graphSem_rename_invariant`,
+   `graphSem_rename_invariant_own_order`), nor on populations that have no deme (`graphSem_extra_populations`);
+2. `from_ms` accepts the names of `g` (`ms_roundtrip_names_accepts`);
+3. the returned graph is valid, in generations, has exactly the deme names of `g`, and its observable read with
+   "population `k` is the deme called like the `k`-th deme of `g`" is — as a value — the observable `rs` of §§5–6,
+   so that every conclusion of `ms_roundtrip_sem_all` holds for it (`ms_roundtrip_names`).
+
+**What is false**: "the demes come back in `g`'s order".  `from_ms` sorts its demes by start time (oldest first,
+stable: `_sort_demes_by_ancestry`), and a valid graph need not list its demes that way
+(`ms_roundtrip_names_order_counterexample`; the names are on the right demes, the list is permuted).  With the
+excluding hypothesis `StartsSorted g` the order is `g`'s (`ms_roundtrip_names_order_partial`).
+
+**What is harmless**: names of `g` that look like the placeholders (`deme2`, `deme1` in swapped positions; `deme4`,
+the name of a transient population): `rename_demes` applies the map simultaneously, and the transient populations
+are gone when it is applied (`ms_roundtrip_names_placeholder_clash_harmless`). -/
+
+open Demes.Spec.MsSem (graphSemWith) in
+/-- **The observable does not depend on the names.**  For a valid graph `g`, a renaming `r` that
+`Graph.rename_demes` accepts (`renameDemesChecked g r = .ok g'`: any map — partial, swaps, chains — after which
+the names are distinct identifiers), any size decoder `sz` and any list `names` of population names ("population
+`k` is the deme called `names[k-1]`"): the renamed graph read with the renamed list has the observable of `g` read
+with `names` — the same sizes, migration step function and lineage movements, or no observable on both sides (some
+deme is not in the list; outcomes are compared by `toOption` because the error message quotes the name).  The
+hypothesis: `r` does not give a listed name that is not a deme the new name of a deme, nor two listed positions of
+different demes the same name (it is needed: see the example below). -/
+theorem graphSem_rename_invariant (sz : Q → Sz) (g g' : Graph) (r : Renaming) (names : List String)
+    (hv : Spec.validGraph g = true) (hr : renameDemesChecked g r = .ok g')
+    (hinj : ∀ x ∈ names, ∀ d ∈ g.demes, r.apply x = r.apply d.name → x = d.name) :
+    (graphSemWith sz g' (some (names.map r.apply))).toOption = (graphSemWith sz g (some names)).toOption :=
+  Proofs.MsNames.graphSem_rename_checked hv hr hinj
+
+open Demes.Spec.MsSem (graphSemWith) in
+/-- … in particular, read in the graph's own deme order (`names = none`: population `k` is the `k`-th deme),
+without any hypothesis on the renaming beyond its acceptance. -/
+theorem graphSem_rename_invariant_own_order (sz : Q → Sz) (g g' : Graph) (r : Renaming)
+    (hv : Spec.validGraph g = true) (hr : renameDemesChecked g r = .ok g') :
+    (graphSemWith sz g' none).toOption = (graphSemWith sz g none).toOption :=
+  Proofs.MsNames.graphSem_rename_checked_none hv hr
+
+open Demes.Spec.MsSem (graphSemWith) in
+/-- Population names after a list that contains every deme of a valid graph change nothing (populations
+without a deme: the transient ones of `from_ms`, which `resultSem` lists and `msGraphSem … (some names)` does not). -/
+theorem graphSem_extra_populations (sz : Q → Sz) (g : Graph) (names extra : List String)
+    (hv : Spec.validGraph g = true) (hn : ∀ d ∈ g.demes, d.name ∈ names) :
+    (graphSemWith sz g (some (names ++ extra))).toOption = (graphSemWith sz g (some names)).toOption :=
+  Proofs.MsNames.graphSem_extra extra hv hn
+
+/-- **`from_ms` accepts the names of `g`.**  Under the hypotheses of `ms_roundtrip_accepts`: `from_ms` of the
+command `to_ms` prints, with the same `N0` and `deme_names` = the names of the demes of `g` in `g`'s order,
+succeeds — as many names as `from_ms` has demes left after dropping the transient ones; they are distinct
+identifiers because `g` is valid. -/
+theorem ms_roundtrip_names_accepts (c : NumCodec) (sa : Growth → String) {g : Graph} (hv : Spec.validGraph g = true)
+    (hx : MsExpressible g = true) (hcs : ConstSizes g = true) (hpt : PulsesTame g = true) {N0 : Q} (hN : 0 < N0)
+    {samples : Option (List Int)} (hs : samplesOk g samples = true) {toks : List (Tok Growth)}
+    (htoks : toMs g N0 samples = .ok toks) (hc : CodecCovers c toks) :
+    ∃ mg', fromMs (renderG c sa toks) N0 (some (g.demes.map (·.name))) = .ok mg' :=
+  Proofs.MsNames.ms_roundtrip_names_accepts c sa hv hx hcs hpt hN hs htoks hc
+
+/-- **Graph → ms → graph with the same `N0` and the same deme names.**  For every valid ms-expressible graph `g`
+of constant sizes with tame pulses, every `N0 > 0`, well-formed `samples`, and number codec that covers the
+numbers of the command: `from_ms(to_ms(g, N0), N0)` returns `mg` and `from_ms(to_ms(g, N0), N0, deme_names)` with
+the names of `g` returns `mg'`, which is `mg` renamed by `deme{k} ↦ k-th name of g`; `mg'.graph` is valid, in
+generations (`generation_time` 1), and its deme names are exactly those of `g` (as a list up to order; in `g`'s
+order when `g` lists its demes by non-increasing start time).  The observable of `mg'` read with "population `k`
+is the deme called like the `k`-th deme of `g`" (`resultSemNamed`; this is how `graphSem (inGenerations …) none`
+numbers the populations of `g`) exists and is THE SAME VALUE `rs` as the observable of `mg` read with "population
+`k` is `deme{k}`"; hence the conclusions of `ms_roundtrip_sem_all`: `rs` is equivalent to the meaning `sem` of the
+command, and both describe the demography `gs` of `normalizeProportions g` on the lifetimes of its demes
+(`SemRefines`: same populations, lifetimes, sizes at every time, migration rates, lineage movements). -/
+theorem ms_roundtrip_names (c : NumCodec) (sa : Growth → String) {g : Graph} (hv : Spec.validGraph g = true)
+    (hx : MsExpressible g = true) (hcs : ConstSizes g = true) (hpt : PulsesTame g = true)
+    {N0 : Q} (hN : 0 < N0) {samples : Option (List Int)} (hs : samplesOk g samples = true)
+    {toks : List (Tok Growth)} (htoks : toMs g N0 samples = .ok toks) (hc : CodecCovers c toks) :
+    ∃ mg mg' sem rs gs, fromMs (renderG c sa toks) N0 none = .ok mg
+      ∧ fromMs (renderG c sa toks) N0 (some (g.demes.map (·.name))) = .ok mg'
+      ∧ mg'.graph = renameDemes mg.graph (Proofs.FromMs.nameMap (g.demes.map (·.name)))
+      ∧ mg'.table = mg.table ∧ mg'.doc = mg.doc
+      ∧ Spec.validGraph mg'.graph = true ∧ mg'.graph.timeUnits = "generations" ∧ mg'.graph.generationTime = 1
+      ∧ (mg'.graph.demes.map (·.name)).Perm (g.demes.map (·.name))
+      ∧ (StartsSorted g = true → mg'.graph.demes.map (·.name) = g.demes.map (·.name))
+      ∧ msSem (renderG c sa toks) N0 = .ok sem
+      ∧ resultSem mg = .ok rs ∧ Spec.C08.resultSemNamed mg' (g.demes.map (·.name)) = .ok rs
+      ∧ graphSem (inGenerations (normalizeProportions g)) none = .ok gs
+      ∧ semEquiv sem rs = true ∧ SemRefines sem gs ∧ SemRefines rs gs :=
+  Proofs.MsNames.ms_roundtrip_names c sa hv hx hcs hpt hN hs htoks hc
+
+open Demes.Proofs.MsNames (orderEx namedRoundTripNames namedRoundTripOk swapEx clashEx namedRoundTrip) in
+/-- **"… in the order of `g`" is false.**  `orderEx` — `A` (size 2) and `C` (size 3) from the infinite past, `B`
+(size 1) branching off `A` at time 4, listed `A`, `B`, `C` — satisfies every hypothesis of `ms_roundtrip_names`
+(`acceptHyps`) and has exact proportions; `to_ms` prints `-I 3 0 0 0 -n 1 2.0 -n 3 3.0 -ej 1.0 2 1`; `from_ms` of
+that with `deme_names = ["A", "B", "C"]` returns the demes in the order `A`, `C`, `B`.  Every name is on the right
+deme (`namedRoundTripOk`: the conclusion of `ms_roundtrip_names`, evaluated); the graph is not `StartsSorted`.
+The real `demes.from_ms(demes.to_ms(g, N0=1), N0=1, deme_names=["A","B","C"])` returns the same order
+`['A', 'C', 'B']` (replayed), and `Graph.isclose`, which ignores the order of the demes, holds. -/
+theorem ms_roundtrip_names_order_counterexample :
+    acceptHyps orderEx 1 = true ∧ ExactProportions orderEx = true ∧ StartsSorted orderEx = false
+    ∧ (toMs orderEx 1 none).toOption.map (renderG tableCodec growthStr)
+        = some ["-I", "3", "0", "0", "0", "-n", "1", "2.0", "-n", "3", "3.0", "-ej", "1.0", "2", "1"]
+    ∧ orderEx.demes.map (·.name) = ["A", "B", "C"]
+    ∧ namedRoundTripNames orderEx 1 = some ["A", "C", "B"]
+    ∧ namedRoundTripOk orderEx 1 [0, 1, 4, 5] = true :=
+  Proofs.MsNames.names_order_counterexample
+
+/-- **The order, with the excluding hypothesis.**  If `g` lists its demes by non-increasing start time
+(`StartsSorted`, Spec/C09.lean), whatever `from_ms` returns for the printed command with the names of `g` has its
+demes in `g`'s order. -/
+theorem ms_roundtrip_names_order_partial (c : NumCodec) (sa : Growth → String) {g : Graph} (hv : Spec.validGraph g = true)
+    (hx : MsExpressible g = true) (hcs : ConstSizes g = true) (hpt : PulsesTame g = true)
+    {N0 : Q} (hN : 0 < N0) {samples : Option (List Int)} (hs : samplesOk g samples = true)
+    {toks : List (Tok Growth)} (htoks : toMs g N0 samples = .ok toks) (hc : CodecCovers c toks)
+    (hso : StartsSorted g = true) {mg' : MsGraph}
+    (h : fromMs (renderG c sa toks) N0 (some (g.demes.map (·.name))) = .ok mg') :
+    mg'.graph.demes.map (·.name) = g.demes.map (·.name) :=
+  Proofs.MsNames.ms_roundtrip_names_order c sa hv hx hcs hpt hN hs htoks hc hso h
+
+open Demes.Proofs.MsNames (namedRoundTripNames namedRoundTripOk swapEx clashEx namedRoundTrip) in
+/-- **Names that collide with the placeholders are harmless** (instances of `ms_roundtrip_names`, evaluated).
+`swapEx`: the root is called `deme2`, its descendant `deme1` — the name map is the swap, applied simultaneously,
+and `deme2` is still the root.  `clashEx`: the admixture of §5 with `A` called `deme4` — the name of the transient
+population `to_ms` creates with `-es` — and `C` called `deme5`.  Both go round with their names.  (Replayed on the
+real code: the same graphs come back, `isclose` holds.) -/
+theorem ms_roundtrip_names_placeholder_clash_harmless :
+    acceptHyps swapEx 1 = true ∧ StartsSorted swapEx = true
+    ∧ namedRoundTripNames swapEx 1 = some ["deme2", "deme1"] ∧ namedRoundTripOk swapEx 1 [0, 1, 4, 5] = true
+    ∧ (namedRoundTrip swapEx 1).map (fun mg => mg.graph.demes.map (fun d => (d.name, d.startTime, d.ancestors)))
+        = some [("deme2", .inf, []), ("deme1", .fin 4, ["deme2"])]
+    ∧ acceptHyps clashEx 1 = true ∧ StartsSorted clashEx = true
+    ∧ (toMs clashEx 1 none).toOption.map (renderG tableCodec growthStr)
+        = some ["-I", "3", "0", "0", "0", "-n", "1", "2.0", "-n", "3", "0.5", "-es", "1.0", "3", "0.5", "-ej", "1.0", "4", "1",
+                "-ej", "1.0", "3", "2", "-ej", "2.0", "2", "1"]
+    ∧ namedRoundTripNames clashEx 1 = some ["deme4", "B", "deme5"] ∧ namedRoundTripOk clashEx 1 [0, 1, 4, 5, 8, 9] = true :=
+  Proofs.MsNames.placeholder_names_harmless
+
+/-! ### non-vacuity of §7 -/
+
+open Demes.Proofs.MsNames (namedRoundTripNames namedRoundTripOk) in
+/-- the hypotheses are those of §6 (`acceptHyps`, satisfied by the five graphs there with their names `A`, `B`,
+`C`), and the theorem applies -/
+example := Proofs.MsNames.names_of_acceptHyps (g := admixMig) (N0 := 1) (by decide +kernel)
+example : [branchMig, admixture, twoDemePulse (1/2), twoEpochs, admixMig].all StartsSorted = true := by decide +kernel
+
+open Demes.Proofs.MsNames (namedRoundTripNames namedRoundTripOk) in
+/-- the conclusion evaluated independently of the theorem (`namedRoundTripOk`, Proofs/MsNamesExamples.lean: both
+calls succeed; the named result is valid, in generations, with the names of `g`; its observable read with `g`'s
+names equals the observable of the unnamed result and passes `refinesAt` against the demography of `g`) -/
+example : [branchMig, admixture, twoDemePulse (1/2), twoEpochs, admixMig].map (fun g => namedRoundTripNames g 1)
+    = [some ["A", "B"], some ["A", "B", "C"], some ["A", "B"], some ["A", "B"], some ["A", "B", "C"]] := by decide +kernel
+open Demes.Proofs.MsNames (namedRoundTripOk) in
+example : namedRoundTripOk branchMig 1 [0, 1, 2, 4, 5, 100] = true ∧ namedRoundTripOk admixture 1 [0, 1, 4, 5, 8, 9] = true
+    ∧ namedRoundTripOk admixture 2 [0, 1, 4, 5, 8, 9] = true ∧ namedRoundTripOk (twoDemePulse (1/2)) 1 [0, 1, 4, 5] = true
+    ∧ namedRoundTripOk twoEpochs 1 [0, 1, 2, 3, 4, 5] = true ∧ namedRoundTripOk admixMig 1 [0, 1, 2, 4, 5, 8, 9] = true := by
+  decide +kernel
+
+/-- … and it is not vacuous: the names of `branchMig` given in the other order put the names on the wrong demes,
+and the observable read with `["A", "B"]` is not that of `branchMig` -/
+example : (match fromMs ["-I", "2", "0", "0", "-n", "1", "2.0", "-n", "2", "0.5", "-m", "2", "1", "0.5", "-ej", "1.0", "2", "1"] 1
+      (some ["B", "A"]), graphSem (inGenerations branchMig) none with
+    | .ok mg', .ok gs => (Spec.C08.resultSemNamed mg' ["A", "B"]).toOption.map (fun rs' => refinesAt rs' gs [0])
+    | _, _ => none) = some false := by decide +kernel
+
+/-- `graphSem_rename_invariant_own_order` on the three-deme graph of C15 (ancestors, migrations, a two-source
+pulse) and a 3-cycle of its names: hypotheses and conclusion (here even with equal error-free outcomes) -/
+example : Spec.validGraph (inGenerations Proofs.exampleGraph3) = true
+    ∧ (renameDemesChecked (inGenerations Proofs.exampleGraph3) [("A", "B"), ("B", "C"), ("C", "A")]).toOption.isSome = true
+    ∧ (graphSem (inGenerations Proofs.exampleGraph3) none).toOption.isSome = true
+    ∧ graphSem (renameDemes (inGenerations Proofs.exampleGraph3) [("A", "B"), ("B", "C"), ("C", "A")]) none
+        = graphSem (inGenerations Proofs.exampleGraph3) none := by decide +kernel
+
+/-- the injectivity hypothesis of `graphSem_rename_invariant` is needed: population list `A, X, B, C` (`X` has no
+deme) and the renaming `X ↦ B` (accepted: no deme is renamed): the renamed list is `A, B, B, C`, `B` becomes
+population 2 instead of 3, and the observable changes -/
+example : Spec.validGraph (inGenerations Proofs.exampleGraph3) = true
+    ∧ (renameDemesChecked (inGenerations Proofs.exampleGraph3) [("X", "B")]).toOption.isSome = true
+    ∧ (graphSem (renameDemes (inGenerations Proofs.exampleGraph3) [("X", "B")])
+        (some (["A", "X", "B", "C"].map (Renaming.apply [("X", "B")])))).toOption
+      ≠ (graphSem (inGenerations Proofs.exampleGraph3) (some ["A", "X", "B", "C"])).toOption
+    ∧ (graphSem (inGenerations Proofs.exampleGraph3) (some ["A", "X", "B", "C"])).toOption.isSome = true := by
+  decide +kernel
 
 end Demes.Theorems
